@@ -15,6 +15,13 @@ PROPS = {
         ],
         "assumptions": ["refinement theorem proved for the Secret/ConfigMap driver model; the memory driver model is tied by correspondence (all three real drivers are compared step by step with their models and with the spec map) and by the key-parse guard/counterexample theorems"],
     },
+    "C16": {
+        "corr": [("paths", {"quick": 1200, "thorough": 25000})],
+        "trusted_base": [
+            "modelled, not verified: archive/tar and compress/gzip (entry names and sizes are what the model sees), cyphar/filepath-securejoin and the OS file system incl. symlink resolution (confinement on disk is observed by before/after snapshots of a sandbox, not proved), Go's path.Clean / strings.Split (re-implemented in Lean and compared on every generated name)",
+        ],
+        "assumptions": ["the tar reader yields exactly the declared number of bytes for an entry (archive/tar's contract)", "TOCTOU races on the destination are outside the model"],
+    },
     "C18": {
         "corr": [("index", {"quick": 1500, "thorough": 30000})],
         "trusted_base": [
